@@ -10,5 +10,5 @@ ASSUMPTIONS = ["reference/serde_classes.json and the enum representation matrix 
 
 def run(ctx):
     c = ctx.mir("default")["ts_rs"]
-    return [L.class_table_rule(ctx.syn, c, "C01", rule="C01.R1"), F.naming_rule(ctx.mir("default")["ts_rs_macros"], "C01", rule="C01.R2"),
+    return [L.class_table_rule(ctx.syn, c, "C01", rule="C01.R1"), L.forwarding_rule(c, "C01", rule="C01.R8"), F.naming_rule(ctx.mir("default")["ts_rs_macros"], "C01", rule="C01.R2"),
             F.rename_all_fields_rule(ctx.mir("default")["ts_rs_macros"], "C01", rule="C01.R2b"), F.variant_rule(ctx.mir("default")["ts_rs_macros"], "C01"), F.struct_tag_first_rule(ctx.mir("default")["ts_rs_macros"], "C01"), T.variant_tag_rule(ctx.syn, "C01"), T.struct_dispatch_rule(ctx.syn, "C01", crate=ctx.mir("default")["ts_rs_macros"]), F.variant_name_flow_rule(ctx.mir("default")["ts_rs_macros"], "C01", rule="C01.R7"), MM.skip_rule(ctx.mir("default")["ts_rs_macros"], "C01", rule="C01.R8")]
